@@ -11,9 +11,9 @@ globals().update(make(
     'handlers: release from processing exactly cycle time after acceptance; sources: a part is ready exactly one '
     'cycle after the previous one left; sinks: consecutive receipts at least one cycle apart. Non-trivial = at least '
     'one part whose processing overlapped a maintenance shutdown that began at a non-zero time AND at least one '
-    'change of the effective cycle time; distinct = SHA-1 of the canonical spec JSON.',
+    'change of the effective cycle time; distinct = SHA-1 of the canonical spec JSON. A quarter of the models use ordinary decimal times (cycle 1.1, maintenance at 7.3, ...): there the same identities are demanded within 1e-9 (accumulated rounding) instead of exactly.',
     lambda mon, case: any(r.maint_with_part and r.changed_cycle for r in mon.refs.values()),
     lambda mon, case: (['maintenance-with-part-in-process'] if any(r.maint_with_part for r in mon.refs.values()) else [])
     + (['cycle-time-changed'] if any(r.changed_cycle for r in mon.refs.values()) else [])
     + (['failure-scheduled-while-down'] if False else []),
-    quick=(400, 4), thorough=(2000, 16)))
+    quick=(400, 4), thorough=(2000, 16), noisy_p=0.25))
